@@ -18,6 +18,10 @@ import (
 // GenFunc produces one history: its Gallina rendering, or a reason to discard it, and an optional note.
 type GenFunc func(r *rand.Rand, timed bool) (coq string, discarded string, note string)
 
+// HistType is the Gallina type of the `histories` definition; a harness whose items are not plain histories
+// (e.g. pairs of a protocol tag and a history) sets it before calling Main.
+var HistType = "list (list step_rec)"
+
 // ScriptsEnabled is true in the first untimed and the first timed worker: they run the directed histories first.
 var ScriptsEnabled bool
 
@@ -94,7 +98,7 @@ func worker(gen GenFunc, idx, n int, timed bool, out string) {
 		}
 		items = append(items, c)
 	}
-	w.Def("histories", "list (list step_rec)", items)
+	w.Def("histories", HistType, items)
 	w.P("Definition n_discarded : N := %d.", discarded)
 }
 
